@@ -2376,7 +2376,8 @@ bool NifFile::GetNodeTransformToGlobal(const std::string& nodeName, MatTransform
 
 		MatTransform xform = node->GetTransformToParent();
 		NiNode* parent = GetParentNode(node);
-		while (parent) {
+		// A valid node tree can't be deeper than the number of blocks (guards against cyclic references)
+		for (size_t depth = 0; parent && depth < blocks.size(); ++depth) {
 			xform = parent->GetTransformToParent().ComposeTransforms(xform);
 			parent = GetParentNode(parent);
 		}
